@@ -282,3 +282,102 @@ ModelsMixin.NATIVE_MODEL_TABLE["io.open"] = _m_open
 ModelsMixin.NATIVE_MODEL_TABLE["_io.open"] = _m_open
 ModelsMixin.FUNCTION_MODELS["genericpath.exists"] = _m_exists
 ModelsMixin.FUNCTION_MODELS["yaml.load"] = _m_yaml_load
+
+
+# ------------------------------------------------------------------------------ synchronisation objects
+class SSync(object):
+    """model of queue.Queue / threading.Lock / Event / Barrier seen by ONE thread of control.
+    A call that would wait forever in this single-threaded view raises Blocked (a first-class
+    outcome: contracts may state never_blocks)."""
+
+    def __init__(self, kind, **st):
+        self.kind = kind
+        self.st = st
+
+    def __repr__(self):
+        return "<SSync %s %r>" % (self.kind, self.st)
+
+
+def sync_method(ctx, obj, name, args, kwargs):
+    from .engine import Blocked
+    k, st = obj.kind, obj.st
+    if k == "queue":
+        if name in ("put", "put_nowait"):
+            st["items"].append(args[0])
+            return None
+        if name in ("get", "get_nowait"):
+            if st["items"]:
+                return st["items"].pop(0)
+            if name == "get_nowait" or (args and args[0] is False) or kwargs.get("block") is False \
+                    or kwargs.get("timeout") is not None or len(args) > 1:
+                import queue
+                ctx.py_raise(queue.Empty)
+            raise Blocked("Queue.get() on an empty queue")
+        if name == "empty":
+            return len(st["items"]) == 0
+        if name == "qsize":
+            return len(st["items"])
+        if name == "task_done":
+            return None
+    if k == "lock":
+        if name in ("acquire", "__enter__"):
+            if st["held"]:
+                if (args and args[0] is False) or kwargs.get("blocking") is False or kwargs.get("timeout") is not None:
+                    return False
+                raise Blocked("Lock.acquire() on a lock already held (never released on this path)")
+            st["held"] = True
+            ctx.held_locks.append(obj)
+            return True
+        if name in ("release", "__exit__"):
+            if not st["held"]:
+                ctx.py_raise(RuntimeError, "release unlocked lock")
+            st["held"] = False
+            if obj in ctx.held_locks:
+                ctx.held_locks.remove(obj)
+            return None
+        if name == "locked":
+            return st["held"]
+    if k == "event":
+        if name == "set":
+            st["flag"] = True
+            return None
+        if name == "clear":
+            st["flag"] = False
+            return None
+        if name == "is_set":
+            return st["flag"]
+        if name == "wait":
+            if st["flag"]:
+                return True
+            if args or kwargs.get("timeout") is not None:
+                return False
+            raise Blocked("Event.wait() without timeout on an event nobody sets on this path")
+    if k == "barrier":
+        if name == "wait":
+            import threading
+            if ctx.choose(2, "barrier") == 1:
+                ctx.py_raise(threading.BrokenBarrierError)
+            return 0
+        if name in ("reset", "abort"):
+            return None
+    ctx.unsupported("%s.%s on a modelled synchronisation object" % (k, name))
+
+
+class SCallable(object):
+    """an unknown callable with declared outcomes; every call is logged in ctx.ghost['calls']"""
+
+    def __init__(self, tag, outcomes, attrs=None):
+        self.tag = tag
+        self.outcomes = outcomes      # list of ('return', make_fn) | ('raise', cls, args)
+        self.attrs = attrs or {}
+
+
+def call_scallable(ctx, f, args, kwargs):
+    from .engine import PyRaise
+    ctx.ghost.setdefault("calls", []).append((f.tag, list(args)))
+    k = ctx.choose(len(f.outcomes), "outcome of %s" % f.tag)
+    ctx.ghost.setdefault("outcomes", []).append((f.tag, k))
+    o = f.outcomes[k]
+    if o[0] == "raise":
+        raise PyRaise(SExc(o[1], o[2]))
+    return o[1](ctx, args)
